@@ -10,6 +10,8 @@
 // Command Language.
 package ast
 
+import "unicode/utf8"
+
 // Node represents an abstract syntax tree.
 type Node interface {
 	Pos() Pos // position of the first character of the node
@@ -619,4 +621,4 @@ type Comment struct {
 }
 
 func (c *Comment) Pos() Pos { return c.Hash }
-func (c *Comment) End() Pos { return c.Hash.shift(len(c.Text)) }
+func (c *Comment) End() Pos { return c.Hash.shift(utf8.RuneCountInString(c.Text)) }
